@@ -406,6 +406,8 @@ def installed(sched):
     ma.FiberThreadEvent = SingletonDecorator(SourceThreadEvent)
     ma.ActiveFabric = SingletonDecorator(ma.ActiveFabricSource)
     ma.InstrumentionWriter = SingletonDecorator(ma.InstrumenationWriterClass)
+    # (the declarations the module itself made - what a client's first request goes through - stay reachable for the singleton check)
+    sched.declared = {n: old[n] for n in ("FiberThreadEvent", "ActiveFabric", "InstrumentionWriter")}
     dsched.CUR = sched
     yield ma
   finally:
